@@ -196,9 +196,10 @@ package dir
 //@   requires dirReady(dip, op)
 //@   preserves [allocInv] allocInv() @C15 @C04
 //@   allocates buf.Buf, marshal.Enc, marshal.Dec, cell:uint64, []uint8, dir.dirEnt, dcache.Dcache, map[string]dcache.Dentry, nfstypes.Entry3
-//@   modifies dnames, dip.Size, dip.Dcache, dcache.Dcache.Lastoff, dip.blks[*], dirtyinum, wroteinum, abits, op.Atxn.allocBnums, []uint64@alloctxn.AllocTxn.allocBnums, []uint8@buf.Buf.Data, buf.Buf.dirty, nfstypes.Entry3, cell:*nfstypes.Entry3, map[string]dcache.Dentry, emitted, emitany, emitlast, lastcookie, lastfileid, lastname, lasthino, lasthgen, lastattrid
+//@   modifies dnames, dip.Size, dip.Dcache, dcache.Dcache.Lastoff, dip.blks[*], dirtyinum, wroteinum, abits, op.Atxn.allocBnums, []uint64@alloctxn.AllocTxn.allocBnums, []uint8@buf.Buf.Data, buf.Buf.dirty, nfstypes.Entry3, cell:*nfstypes.Entry3, map[string]dcache.Dentry, emitted, emitany, emitlast, lastcookie, lastfileid, lastname, lasthino, lasthgen, lastattrid, lastremoved
 //@   ensures [frame-dcache] (forall d *dcache.Dcache :: d != dip.Dcache ==> d.Lastoff == old(d.Lastoff)) && (old(dip.Dcache) != nil ==> dip.Dcache == old(dip.Dcache)) && (dip.Dcache == old(dip.Dcache) || fresh(dip.Dcache))
 //@   ensures [ibits-same] abits[theIalloc] == old(abits)[theIalloc] @C05
+//@   ghostexit lastremoved = ite(result, old(dnames)[dip.Inum][name], lastremoved)
 //@   ghostexit dnames = ite(result, store(dnames, dip.Inum, store(dnames[dip.Inum], name, 0)), dnames)
 //@   panic_assumed "RemName"
 //@   ensures [Fn5-rem] result ==> old(dnames)[dip.Inum][name] != 0 && dnames[dip.Inum][name] == 0 && dip.Kind == 2 @C02
